@@ -1402,6 +1402,43 @@ def gen_cat_family(rng, main):
     return fam
 
 
+# integer arguments are Python expressions: an expression can BIND a name (assignment expression); a later case whose integer
+# expression READS that name must not see it.  (Names that the evaluating function or its module might know - s, val, ... -
+# are avoided: only c17-prefixed names; no globals() / builtins tricks, which reach real shared objects on any tree.)
+INT_BINDERS = [
+    ('setup', 'timeout = "(c17lim := 50)"'),
+    ('setup', 'timeout = "(c17lim := 45) + (c17n := 1) - 1"'),
+    ('assert', 'stdout num-lines >= "(c17n := 1)"'),
+    ('assert', 'exit-code < "(c17code := 9)"'),
+    ('assert', 'stdout any line : line-num == "(c17ln := 2)"'),
+    ('assert', 'stderr num-lines == "[c17n := 1, c17code := 5][0]"'),
+]
+INT_READERS = [
+    ('setup', 'timeout = c17lim'),
+    ('setup', 'timeout = "c17lim if \'c17lim\' in dir() else 60"'),
+    ('assert', 'stdout num-lines == "c17n if \'c17n\' in dir() else 3"'),
+    ('assert', 'stdout num-lines >= c17n'),
+    ('assert', 'exit-code == "c17code if \'c17code\' in dir() else 0"'),
+    ('assert', 'exit-code != c17code'),
+    ('assert', 'stdout every line : line-num <= "c17ln if \'c17ln\' in dir() else 3"'),
+    ('assert', 'stdout any line : line-num == "c17ln + 1"'),
+]
+
+
+def gen_intexpr_family(rng):
+    """2 cases whose integer expressions bind names, 2 whose integer expressions read them; no suite contents"""
+    cases = []
+    for pool, k in ((INT_BINDERS, 2), (INT_READERS, 2)):
+        for _ in range(k):
+            c = {'conf': [], 'defs': [], 'assert': []}
+            for ph, line in rng.sample(pool, rng.randint(1, 2)):
+                c['defs' if ph == 'setup' else 'assert'].append(line)
+            cases.append(c)
+    last = [0, 1, 2, 3]
+    rng.shuffle(last)
+    return {'entries': ['intexpr-names'], 'suite': {}, 'cases': cases, 'orders': [[0, 1, 2, 3], [3, 2, 1, 0], [2, 0, 3, 1], last + [last[0]]]}
+
+
 CAT_PREPROCESSOR = ("preprocessor = sh -c 'if grep -q PP_FAIL \"$1\"; then echo marked >&2; exit 3; fi; sed s/PPTOKEN/gamma/ \"$@\"' pp")
 
 
@@ -1420,6 +1457,8 @@ def cat_case_text(c):
     out = (['# PP_FAIL'] if c.get('pp_fail') else []) + (['[conf]'] + c['conf'] if c['conf'] else [])
     out += ['[setup]'] + CAT_FIXED_SETUP + c['defs']
     out += ['[act]', CAT_ACT if sh else '$ ' + CAT_ACT]
+    if c.get('assert'):
+        out += ['[assert]'] + c['assert']
     # what the case itself sees of the conf settings (its own, or - if they leaked - another case's)
     out += ['[cleanup]', '$ echo "home @[EXACTLY_HOME]@ act-home @[EXACTLY_ACT_HOME]@" ' + LOG]
     return '\n'.join(out) + '\n'
@@ -1602,7 +1641,7 @@ def run(ctx, res, scale=1):
     walk = list(CATALOG)
     rng.shuffle(walk)
     walk = walk * ((1 if ctx.quick else 5) * scale)
-    cats = load_corpus() + [gen_cat_family(rng, e) for e in walk]
+    cats = load_corpus() + [gen_cat_family(rng, e) for e in walk] + [gen_intexpr_family(rng) for _ in range((3 if ctx.quick else 20) * scale)]
     for fam, (st, obs) in zip(cats, run_parallel(ctx, 'cat', cats)):
         if st != 'ok':
             res.errors.append('catalog experiment failed to run: ' + obs)
@@ -1675,7 +1714,9 @@ def run(ctx, res, scale=1):
                 'symbol-referencing arguments per instruction); cases 0 and 1 define the symbols with two different valid values, case 2 '
                 'one of them wrongly (not at all, wrong type, wrong relativity, unparsable value), case 3 at random and (60%) with status '
                 '/ actor / home / act-home in its own [conf]; 30%: the suite sets a preprocessor that fails on one marked case; 3 orders '
-                '(forward, backward, shuffled with a repeated case), each as suite run and as consecutive --suite runs of one MainProgram, against every case '
+                '(forward, backward, shuffled with a repeated case); plus families without suite contents of 2 cases whose INTEGER arguments '
+                '(timeout, num-lines, exit-code, line-num) are Python expressions that bind names with := and 2 cases whose integer '
+                'expressions read those names (plainly, or NAME if NAME in dir() else K), 4 orders; each as suite run and as consecutive --suite runs of one MainProgram, against every case '
                 'alone with --suite in a fresh process. all non-trivial; distinct := distinct (files, order, mode).').replace('@N@', str(len(CATALOG)))
     res.evaluations = len(terms)
     by_exp = {}
